@@ -208,4 +208,80 @@ theorem partsFrom_eq_aligned (d : Div) (s : Split) (q t : Nat)
       have : ¬ (0 < t ∧ q = i) := by omega
       simp [hpost, this]
 
+/-- the two shapes of `init` inside the no-wrap domain, with quotients and remainders named:
+    `o = a*iv + r`, `o + l = (a+m)*iv + t` -/
+theorem shape (iv o l : Nat) (h : NoWrap iv o l) :
+    ∃ a r m t, r < iv ∧ t < iv ∧ o = a * iv + r ∧ r + l = m * iv + t ∧ a + m + 1 < W ∧
+      ((m + (if t = 0 then 0 else 1) = 1 ∧ init (fixedDiv iv) o l =
+          { b := o, e := o + l, abegin := a, aend := a + 1, apbegin := a + (if r = 0 then 0 else 1),
+            apend := a + m, brem := r, erem := t,
+            smallNote := if r ≠ 0 ∧ t ≠ 0 then ⟨a, r, l⟩ else ⟨0, 0, 0⟩,
+            preface := if r ≠ 0 ∧ t = 0 then ⟨a, r, l⟩ else ⟨0, 0, 0⟩,
+            first := ⟨a, r, l⟩,
+            postface := if r = 0 ∧ t ≠ 0 then ⟨a, r, l⟩ else ⟨0, 0, 0⟩ }) ∨
+       (m + (if t = 0 then 0 else 1) ≠ 1 ∧ init (fixedDiv iv) o l =
+          { b := o, e := o + l, abegin := a, aend := a + m + (if t = 0 then 0 else 1),
+            apbegin := a + (if r = 0 then 0 else 1),
+            apend := a + m, brem := r, erem := t,
+            smallNote := ⟨0, 0, 0⟩,
+            preface := if r = 0 then ⟨0, 0, 0⟩ else ⟨a, r, iv - r⟩,
+            first := ⟨a, r, iv - r⟩,
+            postface := if t = 0 then ⟨0, 0, 0⟩ else ⟨a + m, 0, t⟩ })) := by
+  obtain ⟨hiv, hivW, hw⟩ := h
+  have h1 := Nat.div_add_mod o iv
+  have h2 := Nat.div_add_mod (o + l) iv
+  have h3 : o / iv ≤ (o + l) / iv := Nat.div_le_div_right (by omega)
+  have hrl := Nat.mod_lt o hiv
+  have htl := Nat.mod_lt (o + l) hiv
+  obtain ⟨m, hm⟩ : ∃ m, (o + l) / iv = o / iv + m := ⟨(o + l) / iv - o / iv, by omega⟩
+  have hd1 := fixed_divide iv o hiv (by omega)
+  have hd2 := fixed_divide iv (o + l) hiv (by omega)
+  have hmodE : (o + l) % W = o + l := Nat.mod_eq_of_lt (by omega)
+  rw [hm] at hd2 h2
+  generalize o / iv = a at *
+  generalize o % iv = r at *
+  generalize (o + l) % iv = t at *
+  have ho : o = a * iv + r := by rw [Nat.mul_comm]; omega
+  have hrel : r + l = m * iv + t := by
+    rw [Nat.mul_add, Nat.mul_comm iv a, Nat.mul_comm iv m] at h2; omega
+  have hbound : a + m + 1 < W := by
+    have : a + m + 1 ≤ (a + m + 1) * iv := Nat.le_mul_of_pos_right _ hiv
+    rw [Nat.add_mul, Nat.add_mul] at this; omega
+  have hm1 : (a + 1) % W = a + 1 := Nat.mod_eq_of_lt (by omega)
+  refine ⟨a, r, m, t, hrl, htl, ho, hrel, hbound, ?_⟩
+  by_cases hs : m + (if t = 0 then 0 else 1) = 1
+  · exact Or.inl ⟨hs, init_single iv o l a r m t hd1 hd2 hmodE hm1 hs⟩
+  · exact Or.inr ⟨hs, init_multi iv o l a r m t hrl hd1 hd2 hmodE hm1 hivW hs⟩
+
+theorem alignedPartsCount_eq (s : Split) (h1 : s.apbegin < W) (h2 : s.apend < W) :
+    alignedPartsCount s = s.apend - s.apbegin := by
+  simp only [alignedPartsCount, alignedBounds, Nat.mod_eq_of_lt h1]
+  by_cases hg : s.apbegin > s.apend
+  · simp only [hg, if_true]
+    have : s.apbegin + W - s.apbegin = W := by omega
+    rw [this, Nat.mod_self]; omega
+  · simp only [hg, if_false]
+    have : s.apend + W - s.apbegin = (s.apend - s.apbegin) + W := by omega
+    rw [this, Nat.add_mod_right]; exact Nat.mod_eq_of_lt (by omega)
+
+theorem allPartsCount_eq (s : Split) (h1 : s.first.i ≤ s.aend) (h2 : s.aend < W) :
+    allPartsCount s = s.aend - s.first.i := by
+  simp only [allPartsCount, Nat.mod_eq_of_lt (show s.first.i < W by omega)]
+  have : s.aend + W - s.first.i = (s.aend - s.first.i) + W := by omega
+  rw [this, Nat.add_mod_right]; exact Nat.mod_eq_of_lt (by omega)
+
+theorem alignedFrom_succ (d : Div) (i n : Nat) (h : i + 1 < W) :
+    alignedFrom d i (n + 1) = ⟨i, 0, d.getLength i⟩ :: alignedFrom d (i + 1) n := by
+  simp only [alignedFrom, Nat.mod_eq_of_lt h]
+
+theorem filter_pos_of_Tiles (iv : Nat) : ∀ (ps : List Sub) (x y : Nat), Tiles iv x ps y →
+    ps.filter (fun p => decide (0 < p.len)) = ps := by
+  intro ps; induction ps with
+  | nil => intro _ _ _; rfl
+  | cons p r ih =>
+    intro x y h
+    simp only [Tiles] at h
+    simp only [List.filter_cons, h.2.1, decide_true, if_true]
+    rw [ih _ _ h.2.2.2]
+
 end Photon.RangeSplit
